@@ -56,7 +56,7 @@ def main():
     shutil.rmtree(scratch, ignore_errors=True)
     # the evidence file was rewritten by the run against the mutant: restore it
     sh("git checkout -- evidence 2>/dev/null", cwd=ROOT)
-    d = os.path.join(ROOT, "seeded", "%s-%s" % (prop, name))
+    d = os.path.join(ROOT, "seeded", "%s-%s%s" % (prop, os.environ.get("SEED_PREFIX", ""), name))
     os.makedirs(d, exist_ok=True)
     shutil.copy(patch, os.path.join(d, "patch.diff"))
     shutil.copy(demo, os.path.join(d, "demo_test.go"))
